@@ -14,7 +14,7 @@
    below), the geometric correctness of ray casting (holes_assigned) and the composition
    build_polygon_recovers. *)
 From Coq Require Import ZArith List Bool Permutation Lia.
-From Verif Require Import Geo.Model Geo.JoinProofs Geo.Conserve Geo.Closes Geo.Cut Geo.Orient Geo.Sources Geo.Holes Geo.Annotate Geo.Edges Geo.Rings Geo.GroupIdx Geo.Recover Geo.Contain Geo.Assign Geo.Build C16.Spec C16.RayQ.
+From Verif Require Import Geo.Model Geo.JoinProofs Geo.Conserve Geo.Closes Geo.Cut Geo.Orient Geo.Sources Geo.Holes Geo.Annotate Geo.Edges Geo.Rings Geo.GroupIdx Geo.Recover Geo.Contain Geo.Assign Geo.Truthful Geo.Build Geo.Collect C16.Spec C16.RayQ.
 Import ListNotations.
 Open Scope Z_scope.
 
@@ -247,27 +247,55 @@ Theorem C16_ray_casting_is_even_odd_rule : forall outer p,
 Proof. exact point_in_ring_is_spec. Qed.
 Print Assumptions C16_ray_casting_is_even_odd_rule.
 
-(* 8. build_polygon_recovers.  sc: the scene, a list of (outer ring, its holes), rings as lists of
-      pairwise distinct vertices (>= 3 each, non-zero area), each written from one of its cut
-      vertices; holes contained in their outer as the even-odd rule defines it ([contained]: some
-      vertex of the hole has an odd crossing number w.r.t. its own outer, and every vertex of the
-      hole lies outside the bounding box of every other outer — what the scene generator
-      asserts); the collected outer / inner segments are ANY cut of the rings, any subset
-      reversed, in any member order; members carry no orientation annotation.
-      Then buildPolygon's geometry (single-outer path or multi-outer path, either setting of
-      IncludeInvalidPolygons) is a Polygon / MultiPolygon whose polygons are, up to order,
-      exactly the scene's: the first ring is the outer ring (closed, complete, from some start
-      vertex, counter-clockwise), the other rings are exactly its own holes (each closed,
-      complete, clockwise; every own hole present, no foreign hole), and the total number of
-      hole rings is the number of holes (none duplicated).
-      PARTIAL with respect to the property text in three respects:
-      (a) members WITH truthful orientation annotations: the winding of Ring(o) is proved at the
-          chain level (theorem 4) but not threaded through this composition;
-      (b) the member loop of buildPolygon (ways -> segments) is not part of the statement: the
-          hypothesis speaks about the collected segments; coordinate sources are theorem 6;
-      (c) "strictly inside" is the even-odd rule itself (7c); its equivalence with a geometric
-          definition for simple polygons (Jordan) is not proved. *)
-Theorem C16_build_polygon_recovers_partial : forall incl (c : collected) (sc : gscene),
+(* 8. build_polygon_recovers (FULL), on the arguments of buildPolygon: node objects, ways, relation
+      members.  sc: the scene, a list of (outer ring, its holes), rings as lists of pairwise
+      distinct vertices (>= 3 each, non-zero area), each written from one of its cut vertices;
+      holes contained in their outer ([contained], see 7).  ds describes every member
+      ([member_ok]): ignored (not a way, or a role other than outer/inner), or a way of role
+      outer / inner that is found, resolves completely - from node objects or from annotated way
+      nodes - to a line of >= 2 points, and whose orientation annotation, IF PRESENT, is the
+      direction in which that way runs around its ring ([mem_truthful]; all, some or none of the
+      members may be annotated).  The outer (inner) lines as written in the data are ANY cut of
+      the outer (hole) rings into consecutive pieces, ANY subset reversed, in ANY member order
+      ([is_cut_lines]).
+      Then buildPolygon (single-outer path or multi-outer path, either setting of
+      IncludeInvalidPolygons) yields a Polygon / MultiPolygon, not tainted, whose polygons are,
+      up to order, exactly the scene's: first ring = the outer ring (closed, complete, from some
+      start vertex, counter-clockwise), the other rings = exactly its own holes (each closed,
+      complete, clockwise; every own hole present, no foreign hole), and the number of hole
+      rings is the number of holes (none duplicated). *)
+Theorem C16_build_polygon_recovers : forall incl nodes ways members ds (sc : gscene),
+  sc <> [] ->
+  NoDup (concat (s_outers sc)) -> NoDup (concat (s_holes sc)) ->
+  Forall (fun r => (3 <= length r)%nat) (s_outers sc ++ s_holes sc) ->
+  (forall r, In r (s_outers sc ++ s_holes sc) -> Orient.shoelace (Rings.close_ring r) <> 0) ->
+  contained sc ->
+  Forall2 (member_ok nodes ways (s_outers sc) (s_holes sc)) members ds ->
+  is_cut_lines (map Rings.close_ring (s_outers sc)) (outer_lines ds) ->
+  is_cut_lines (map Rings.close_ring (s_holes sc)) (inner_lines ds) ->
+  exists mp sc',
+    geom_polys (fst (build_polygon incl nodes ways members)) = Some mp /\
+    snd (build_polygon incl nodes ways members) = false /\
+    Permutation sc' sc /\ Forall2 poly_recovered sc' mp /\
+    length (concat (map (@tl line) mp)) = length (s_holes sc).
+Proof. exact build_polygon_recovers. Qed.
+Print Assumptions C16_build_polygon_recovers.
+
+(* 8b. the whole result (geometry and tainted flag) is the same whether coordinates come from
+       node objects, from annotated way nodes without any node object, or from both - for ANY
+       members (also malformed relations), provided no node is at (0,0) and every referenced
+       node exists *)
+Theorem C16_build_polygon_sources : forall incl nodes raw members,
+  Forall not_origin nodes ->
+  (forall w id, In w raw -> In id (snd w) -> lookup_node nodes id <> None) ->
+  Forall (fun m => mem_nodes m = []) members ->
+  build_polygon incl [] (ways_annot nodes raw) members = build_polygon incl nodes (ways_bare raw) members /\
+  build_polygon incl nodes (ways_annot nodes raw) members = build_polygon incl nodes (ways_bare raw) members.
+Proof. exact build_polygon_sources. Qed.
+Print Assumptions C16_build_polygon_sources.
+
+(* 8c. the same on already collected segments (segment-level truthfulness [seg_truthful]) *)
+Theorem C16_build_geometry_recovers : forall incl (c : collected) (sc : gscene),
   sc <> [] ->
   NoDup (concat (s_outers sc)) -> NoDup (concat (s_holes sc)) ->
   Forall (fun r => (3 <= length r)%nat) (s_outers sc ++ s_holes sc) ->
@@ -275,13 +303,14 @@ Theorem C16_build_polygon_recovers_partial : forall incl (c : collected) (sc : g
   contained sc ->
   is_cut (map Rings.close_ring (s_outers sc)) (col_outer c) ->
   is_cut (map Rings.close_ring (s_holes sc)) (col_inner c) ->
-  (forall s, In s (col_outer c ++ col_inner c) -> seg_orient s = 0) ->
+  (forall s, In s (col_outer c) -> seg_truthful (s_outers sc) s) ->
+  (forall s, In s (col_inner c) -> seg_truthful (s_holes sc) s) ->
   exists mp sc',
     geom_polys (build_geometry incl c) = Some mp /\ Permutation sc' sc /\
     Forall2 poly_recovered sc' mp /\
     length (concat (map (@tl line) mp)) = length (s_holes sc).
 Proof. exact build_geometry_recovers. Qed.
-Print Assumptions C16_build_polygon_recovers_partial.
+Print Assumptions C16_build_geometry_recovers.
 
 (* ray casting does not depend on how the two rings are written (start vertex, direction) *)
 Theorem C16_contains_ring_lines : forall o OL h HL, (1 <= length o)%nat -> (1 <= length h)%nat ->
@@ -398,4 +427,78 @@ Proof.
 Qed.
 Example ex_build : geom_polys (build_geometry false ex_collected) =
   Some [[[(9,9); (1,9); (1,1); (9,1); (9,9)]; [(3,3); (3,5); (5,5); (3,3)]]].
+Proof. vm_compute. reflexivity. Qed.
+
+(* ------------------------------------------------------------------ non-vacuity of theorem 8 *)
+(* square with a triangular hole; way 11 = first half of the outer ring written BACKWARDS and
+   annotated (truthfully) clockwise, way 12 = second half, not annotated, way 13 = the hole, one
+   closed way annotated clockwise; coordinates on annotated way nodes only for 11, node objects
+   for 12 and 13; a node member and a way with another role are ignored *)
+Definition ex8_scene : gscene := [([(1,1); (9,1); (9,9); (1,9)], [[(3,3); (3,5); (5,5)]])].
+Definition ex8_nodes : list node :=
+  [mkNode 1 1 1; mkNode 2 9 1; mkNode 3 9 9; mkNode 4 1 9; mkNode 5 3 3; mkNode 6 3 5; mkNode 7 5 5].
+Definition ex8_ways : list way :=
+  [mkWay 11 [mkWN 3 0 9 9; mkWN 2 0 9 1; mkWN 1 0 1 1];
+   mkWay 12 [mkWN 3 0 0 0; mkWN 4 0 0 0; mkWN 1 0 0 0];
+   mkWay 13 [mkWN 5 0 0 0; mkWN 6 0 0 0; mkWN 7 0 0 0; mkWN 5 0 0 0];
+   mkWay 14 [mkWN 1 0 0 0; mkWN 5 0 0 0]].
+Definition ex8_members : list member :=
+  [mkMem true 13 Inner (-1) []; mkMem false 1 Outer 0 []; mkMem true 12 Outer 0 [];
+   mkMem true 14 OtherRole 0 []; mkMem true 11 Outer (-1) []].
+Definition ex8_descs : list mdesc :=
+  [MPiece Inner [(3,3); (3,5); (5,5); (3,3)]; MIgnored; MPiece Outer [(9,9); (1,9); (1,1)];
+   MIgnored; MPiece Outer [(9,9); (9,1); (1,1)]].
+
+Ltac ex_step i := exists i; split; [simpl; lia|split; reflexivity].
+
+Example ex8_members_ok :
+  Forall2 (member_ok ex8_nodes ex8_ways (s_outers ex8_scene) (s_holes ex8_scene)) ex8_members ex8_descs.
+Proof.
+  constructor; [|constructor; [|constructor; [|constructor; [|constructor; [|constructor]]]]].
+  - split; [reflexivity|]. split; [reflexivity|]. split; [simpl; lia|].
+    split; [eexists; split; reflexivity|].
+    right. exists [(3,3); (3,5); (5,5)], (-1). split; [left; reflexivity|]. split; [|reflexivity].
+    left. split; [|vm_compute; reflexivity].
+    intros e [<-|[<-|[<-|[]]]]; [ex_step 0%nat|ex_step 1%nat|ex_step 2%nat].
+  - left. reflexivity.
+  - split; [reflexivity|]. split; [reflexivity|]. split; [simpl; lia|].
+    split; [eexists; split; reflexivity|]. left. reflexivity.
+  - right. reflexivity.
+  - split; [reflexivity|]. split; [reflexivity|]. split; [simpl; lia|].
+    split; [eexists; split; reflexivity|].
+    right. exists [(1,1); (9,1); (9,9); (1,9)], (-1). split; [left; reflexivity|]. split; [|reflexivity].
+    right. split; [|vm_compute; reflexivity].
+    intros e [<-|[<-|[]]]; [ex_step 1%nat|ex_step 0%nat].
+Qed.
+
+Example ex8_cut_outer : is_cut_lines (map Rings.close_ring (s_outers ex8_scene)) (outer_lines ex8_descs).
+Proof.
+  split; [repeat constructor|].
+  exists [[[(1,1); (9,1); (9,9)]; [(9,9); (1,9); (1,1)]]],
+         [([(1,1); (9,1); (9,9)], true); ([(9,9); (1,9); (1,1)], false)].
+  split; [|split].
+  - constructor; [|constructor]. split; [discriminate|]. split; [repeat constructor|]. split; [simpl; auto|reflexivity].
+  - reflexivity.
+  - simpl. unfold flip. simpl. apply perm_swap.
+Qed.
+
+Example ex8_cut_inner : is_cut_lines (map Rings.close_ring (s_holes ex8_scene)) (inner_lines ex8_descs).
+Proof.
+  split; [repeat constructor|].
+  exists [[[(3,3); (3,5); (5,5); (3,3)]]], [([(3,3); (3,5); (5,5); (3,3)], false)].
+  split; [|split].
+  - constructor; [|constructor]. split; [discriminate|]. split; [repeat constructor|]. split; [exact I|reflexivity].
+  - reflexivity.
+  - reflexivity.
+Qed.
+
+Example ex8_contained : contained ex8_scene.
+Proof.
+  split.
+  - intros o hs h [E|[]] Hh. inversion E; subst. destruct Hh as [<-|[]]. vm_compute. reflexivity.
+  - intros o hs h o' hs' [E|[]] Hh [E'|[]] Hne. inversion E; inversion E'; subst. congruence.
+Qed.
+
+Example ex8_result : build_polygon false ex8_nodes ex8_ways ex8_members =
+  (GPolygon [[(1,1); (9,1); (9,9); (1,9); (1,1)]; [(3,3); (3,5); (5,5); (3,3)]], false).
 Proof. vm_compute. reflexivity. Qed.
